@@ -128,6 +128,7 @@ type Session struct {
 
 	nextSend               atomic.Uint32 // next sequence number to send a segment
 	nextRecv               atomic.Uint32 // next sequence number to receive
+	streamNextRecv         atomic.Uint32 // next sequence number to receive on the stream transport, which delivers in order
 	lastSend               atomic.Uint32 // last segment sequence number sent
 	lastRXTime             atomic.Int64  // last timestamp when a segment is received, in microseconds since Unix epoch
 	lastTXTime             atomic.Int64  // last timestamp when a segment is sent, in microseconds since Unix epoch
@@ -1074,6 +1075,16 @@ func (s *Session) inputData(seg *segment) error {
 
 	switch s.transportProtocol {
 	case common.StreamTransport:
+		// The stream transport delivers every segment of a session exactly
+		// once and in order. A gap means that part of the stream was removed
+		// (the initial nonce travels in clear text, so the beginning of a
+		// stream can be cut off without failing authentication).
+		seq, _ := seg.Seq()
+		if expected := s.streamNextRecv.Load(); seq != expected {
+			return fmt.Errorf("inputData() failed: received %v while sequence number %d is expected", seg, expected)
+		}
+		s.streamNextRecv.Add(1)
+
 		// Deliver the segment directly to recvQueue.
 		if s.waitForRecvQueueSpace() {
 			if !s.recvQueue.Insert(seg) {
